@@ -34,6 +34,8 @@ def render_item(it, top=True):
     k = it["k"]
     if k == "tok":
         s = f"'{it['s']}'"
+    elif k == "name":
+        s = "NAME"
     elif k == "rule":
         s = it["n"]
     elif k == "opt":
@@ -93,7 +95,7 @@ def nullable_set(grammar):
         k = it["k"]
         if k in ("opt", "star", "pos", "neg", "forced", "cut"):
             return True  # (a cut consumes nothing)
-        if k in ("tok", "plus", "gather"):
+        if k in ("tok", "name", "plus", "gather"):
             return False
         if k == "rule":
             return it["n"] in nul
@@ -438,6 +440,24 @@ class Ref:
     def __init__(self, grammar, tokens, budget=20000):
         self.rules = {r["name"]: r for r in grammar["rules"]}
         self.toks = tokens
+        # hard keywords: every single-quoted literal that is spelled like an identifier; NAME never matches one of them
+        self.keywords = set()
+
+        def lits(it):
+            if it["k"] in ("tok", "forced") and it["s"].isidentifier():
+                self.keywords.add(it["s"])
+            for sub in ("x", "sep"):
+                if sub in it:
+                    lits(it[sub])
+            if it["k"] == "group":
+                for a in it["alts"]:
+                    for i in a["items"]:
+                        lits(i)
+
+        for r in grammar["rules"]:
+            for a in r["alts"]:
+                for i in a["items"]:
+                    lits(i)
         self.lr, self.leaders = left_recursion(grammar)
         self.seeds = {}
         self.budget = budget
@@ -506,6 +526,10 @@ class Ref:
         if k == "tok":
             if pos < len(self.toks) and self.toks[pos] == it["s"]:
                 return it["s"], pos + 1
+            return FAIL, pos
+        if k == "name":
+            if pos < len(self.toks) and self.toks[pos] not in self.keywords:
+                return self.toks[pos], pos + 1
             return FAIL, pos
         if k == "rule":
             return self.rule(it["n"], pos)
